@@ -512,6 +512,22 @@ fn explain(src_json: Option<&J>, b: &ValidatorSchema) -> Option<String> {
     None
 }
 
+/// is the load failure (error class `class`) of the translation exactly what a known lossy printer step produces on `src_json`?
+fn explain_load_failure(src_json: &J, class: &str) -> String {
+    let names = ["entity-ref-as-eoc", "common-ref-as-eoc", "drop-half-empty-appliesTo"];
+    let mut masks: Vec<u32> = (1..8).collect();
+    masks.sort_by_key(|m: &u32| m.count_ones());
+    let bare = class.rsplit('.').next().unwrap_or(class);
+    for m in masks {
+        if let Err(c) = load_json(&rewrite_json(src_json, m & 1 != 0, m & 2 != 0, m & 4 != 0)) {
+            if c.rsplit('.').next().unwrap_or(&c) == bare {
+                return format!("[explained-by:{}]", (0..3).filter(|i| m & (1 << i) != 0).map(|i| names[i]).collect::<Vec<_>>().join("+"));
+            }
+        }
+    }
+    "[unexplained]".to_string()
+}
+
 fn report_unequal(out: &mut Out, case: &str, route: &str, a: &ValidatorSchema, b: &ValidatorSchema, src: &str, translated: &str, src_json: Option<&J>) -> bool {
     let (eq, canon) = same_schema(a, b);
     if eq && canon {
@@ -574,7 +590,11 @@ fn check_json_input(out: &mut Out, r: &mut Rng, case: &str, kind: &str, j: &J, w
                 compare_verdicts(out, r, case, "json->cedar", &a, &b, world);
             }
         }
-        Err(c) => out.propfail("translated schema does not load", case, &format!("json->cedar: {c}: source={jsrc} :: translated={text}")),
+        Err(c) => {
+            let expl = explain_load_failure(j, &c);
+            out.count(&format!("unloadable:json->cedar:{expl}"));
+            out.propfail("translated schema does not load", case, &format!("json->cedar {expl}: {c}: source={jsrc} :: translated={text}"))
+        }
     }
     // one more hop: the produced text back to JSON
     match cedar_to_json(&text) {
@@ -582,7 +602,11 @@ fn check_json_input(out: &mut Out, r: &mut Rng, case: &str, kind: &str, j: &J, w
             Ok(a2) => {
                 report_unequal(out, case, "json->cedar->json", &a, &a2, &jsrc, &j2.to_string(), Some(j));
             }
-            Err(c) => out.propfail("translated schema does not load", case, &format!("json->cedar->json: {c}: source={jsrc} :: translated={j2}")),
+            Err(c) => {
+                let expl = explain_load_failure(j, &c);
+                out.count(&format!("unloadable:json->cedar->json:{expl}"));
+                out.propfail("translated schema does not load", case, &format!("json->cedar->json {expl}: {c}: source={jsrc} :: translated={j2}"))
+            }
         },
         Err(reason) => {
             // the printer's own output is not translatable back
@@ -837,6 +861,7 @@ fn emit_print(out: &mut Out, case: &str, t: &json_schema::Type<RawName>) {
 /// `(sty parse …)`: the real parser on `type T__ = <text>;`
 fn emit_parse(out: &mut Out, case: &str, text: &str) {
     let Some(toks) = lex(text) else { return };
+    let annotated = toks.iter().any(|t| t == "at");
     let toks = drop_annotations(toks);
     if toks.iter().any(|t| t == "semi" || t == "at") {
         return;
@@ -852,6 +877,11 @@ fn emit_parse(out: &mut Out, case: &str, text: &str) {
                 Some(s) => format!("(ok {s})"),
                 None => return,
             }
+        }
+        // annotations are erased for the model: a rejection of an annotated text may be about them (duplicate keys)
+        Ok(Err(_)) if annotated => {
+            out.count("model:parse:skipped-annotated-rejected");
+            return;
         }
         Ok(Err(_)) => "(err)".to_string(),
         Err(_) => {
@@ -1230,6 +1260,8 @@ fn probes(out: &mut Out, r: &mut Rng) {
         json!({"": {"entityTypes": {"E": {}}, "actions": {"a": {"appliesTo": {"principalTypes": [], "resourceTypes": ["E"]}}, "b": {}, "c": {"appliesTo": {"principalTypes": ["E"], "resourceTypes": ["E"]}, "memberOf": [{"id": "a"}, {"id": "b", "type": "Action"}]}}}}),
         // must-be-common reference to the builtin alias `ipaddr` inside a namespace that declares an entity type `ipaddr`
         json!({"A": {"entityTypes": {"ipaddr": {}, "E": {"shape": {"type": "Record", "attributes": {"a": {"type": "ipaddr"}}}}}, "actions": {}}}),
+        // … the entity reference sits inside the definition of the common type of the same name: the translation is a cycle
+        json!({"": {"commonTypes": {"T": {"type": "Record", "attributes": {"n": {"type": "Entity", "name": "T", "required": false}}}}, "entityTypes": {"T": {}}, "actions": {}}}),
         // shape given by a common type (not expressible)
         json!({"": {"commonTypes": {"S": {"type": "Record", "attributes": {}}}, "entityTypes": {"E": {"shape": {"type": "S"}}}, "actions": {}}}),
     ];
